@@ -94,6 +94,27 @@ ADD = {
  "C16": (" diplomat_is_str is `true` on the null edge and the unmodified core validator otherwise (found the NULL+0 abort, repaired by a fix: commit); diplomat_alloc returns the allocator's pointer on every path and diplomat_free deallocates on every path. Thorough tier: compile-fail witnesses (views cannot be forged, outlive their borrow or be duplicated mutably) and the same rules on the feature-less runtime build.", " + compile-fail witnesses with twins"),
  "C17": (" (R5) CLI and attribute values are parsed as TOML values; (R6) the scan for #[diplomat::config] is exhaustive (no short-circuiting adaptor, break or early return).", ""),
 }
+
+# rules added after the third seeding round and the false-alarm (refactoring) corpus
+ADD3 = {
+ "C01": " (R5) the macro's `repr` flag is set for the `repr` attribute only; (R10) strings written through DiplomatWrite arrive whole (exact capacity test, shared with C12).",
+ "C02": " (R4) every return shape with SuccessType::Write yields the written string; a std::function is heap-moved with c_delete (shared C03.R5); include guards come from the full path (shared C09.R3).",
+ "C03": " (R3) the callback destructor runs on every path on which it is present; the fixed writer never touches a byte beyond the buffer (shared C12.R6).",
+ "C04": " (R1) the receiver is visited for every lifetime-carrying receiver kind, optional slice fields are allocated like plain ones; (R3) the outlives worklist runs until the queue is empty.",
+ "C05": " (R3) the macro's struct-field check runs for every non-opaque struct; lifetime traversal rules shared with C04.",
+ "C06": " (R1) the rename pattern keeps prefix and suffix; the AST inheritance table of attribute lists (shared C13.R6).",
+ "C07": " (R2) a pre-joined getFieldOrder list must derive from the declarations' collection through order-preserving steps; fallible Dart returns are the result record.",
+ "C08": " (R8) generated diplomatRuntime call literals agree with the runtime's parameter lists; (R2) the receive buffer is sized for both payloads.",
+ "C09": " (R3) types are never named against a throw-away header, include guards use the full path; (R5) Send/Sync emitted independently; fragment-balance analysis of the JS slice conversion over (context x ABI).",
+ "C10": " (R5) JS result buffer and option helpers (shared C08).",
+ "C11": " (R1) no positional enum conversion in Kotlin generator literals or the JS non-contiguous branch.",
+ "C12": " (R1) the capacity test is exactly len + n > cap.",
+ "C13": " (R8) inherited attribute lists are append-only, extra backend names are triaged; (R6) AST-level inheritance table.",
+ "C14": " (R4) output files are written whole (truncating); sibling-item leakage rule shared with C13.",
+ "C15": " (R1) every panic-family site is triaged (variant-selected arms and condition-guarded sites); (R3) `.id().unwrap()` only on custom types; (R6) length guards of first()/last() unwraps evaluated for lengths 0..3, Dart allocator lookups see through DiplomatOption.",
+ "C16": " (R1) the empty slice is produced only on the NULL edge.",
+ "C17": " (R6) every loop that applies a configuration source runs to completion.",
+}
 NOT_YET = "rule module not built yet in this round (see DESIGN.md section 4 for the planned static rules)"
 
 def main():
@@ -111,7 +132,7 @@ def main():
                 "evidence_file": "/verif/evidence/%s.json" % pid,
                 "replay_cmd_template": "./check %s quick  # replay file {path} lists the violated rule instances" % pid,
                 "engine": "dipfacts+rules",
-                "level_claimed": {"category": "other", "text": c["text"] + ADD.get(pid, ("", ""))[0], "design_ref": "DESIGN.md section 4 " + pid},
+                "level_claimed": {"category": "other", "text": c["text"] + ADD.get(pid, ("", ""))[0] + ADD3.get(pid, ""), "design_ref": "DESIGN.md section 4 " + pid},
                 "level_note": c["note"],
                 "technique": "static analysis: " + c["technique"] + ADD.get(pid, ("", ""))[1],
             })
